@@ -1,5 +1,5 @@
 (* C20 -- executable mirror of TeamCityTestOutput (src/CppUTest/TeamCityTestOutput.cpp) driven by the callback order of
-   TestRegistry::runAllTests (C16_Events), a parser for TeamCity service messages, and the model-free oracle `spec`.
+   TestRegistry::runAllTests (test scripts and per-test callbacks from C16_Events; the loop with name filters here), a parser for TeamCity service messages, and the model-free oracle `spec`.
    No proofs here. *)
 From Coq Require Import NArith Bool List.
 From Coq Require String Ascii.
@@ -55,6 +55,20 @@ Definition attr_print (a : bytes * list seg) : bytes := [32] ++ fst a ++ [61; 39
 Definition msg_print (m : pmsg) : bytes := L_marker ++ pm_name m ++ flat_map attr_print (pm_attrs m) ++ [93; 10].
 Definition item_print (i : item) : bytes := match i with IMsg m => msg_print m | IText s => s end.
 
+(* TestRegistry::runAllTests with strict name filters (-sn): a test runs iff there is no filter or its name equals one of them
+   (UtestShell::shouldRun / TestFilter::match); the group callbacks do not depend on the filters *)
+Definition selected (fs : list bytes) (t : test) : bool :=
+  match fs with [] => true | _ => existsb (bytes_eqb (t_name t)) fs end.
+Definition sel_events (fs : list bytes) (t : test) : list ev := if selected fs t then test_events t else [].
+Fixpoint reg_loop_sel (fs : list bytes) (groupStart : bool) (ts : list test) : list ev :=
+  match ts with
+  | [] => []
+  | t :: rest =>
+      (if groupStart then [EGroupStart t] else []) ++ sel_events fs t ++
+      (if end_of_group t rest then EGroupEnd :: reg_loop_sel fs true rest else reg_loop_sel fs false rest)
+  end.
+Definition events_sel (fs : list bytes) (ts : list test) : list ev := reg_loop_sel fs true ts.
+
 (* the writer's members: currtest_, currGroup_, groupOpen_ (the last one added by the repair of D15) *)
 Record tcst := { c_test : option test; c_group : bytes; c_open : bool }.
 Definition tc_init : tcst := {| c_test := None; c_group := []; c_open := false |}.
@@ -101,15 +115,15 @@ Fixpoint tc_items (st : tcst) (es : list ev) : list item :=
   | [] => []
   | e :: r => let '(st', out) := tc_step st e in out ++ tc_items st' r
   end.
-Definition render_with (ts : list test) : bytes := flat_map item_print (tc_items tc_init (events_of ts)).
+Definition render_with (fs : list bytes) (ts : list test) : bytes := flat_map item_print (tc_items tc_init (events_sel fs ts)).
 End Writer.
 
-Record scenario := { s_dur : N; s_tests : list test }.
+Record scenario := { s_dur : N; s_filters : list bytes; s_tests : list test }.
 Definition obs := bytes.      (* everything handed to printBuffer, in order *)
-Definition render_tc (dur : N) (ts : list test) : bytes := render_with Esc true dur ts.
-Definition run (s : scenario) : obs := render_tc (s_dur s) (s_tests s).
-Definition run_old_path (s : scenario) : obs := render_with Raw true (s_dur s) (s_tests s).    (* before the repair of D15 (1) *)
-Definition run_old_group (s : scenario) : obs := render_with Esc false (s_dur s) (s_tests s).  (* before the repair of D15 (2) *)
+Definition render_tc (dur : N) (fs : list bytes) (ts : list test) : bytes := render_with Esc true dur fs ts.
+Definition run (s : scenario) : obs := render_tc (s_dur s) (s_filters s) (s_tests s).
+Definition run_old_path (s : scenario) : obs := render_with Raw true (s_dur s) (s_filters s) (s_tests s).    (* before the repair of D15 (1) *)
+Definition run_old_group (s : scenario) : obs := render_with Esc false (s_dur s) (s_filters s) (s_tests s).  (* before the repair of D15 (2) *)
 
 (* scenarios the harness can hand to the real code: numbers are size_t, strings are C strings; text printed by test bodies
    (UT_PRINT) is copied into the stream as it is and is outside the property *)
@@ -122,7 +136,7 @@ Definition tc_okstmt (s : stmt) : bool :=
   end.
 Definition tc_oktest (t : test) : bool :=
   cstring (t_group t) && cstring (t_name t) && cstring (t_file t) && (t_line t <=? max_size) && forallb tc_okstmt (t_body t).
-Definition valid (s : scenario) : bool := (s_dur s <=? max_size) && forallb tc_oktest (s_tests s).
+Definition valid (s : scenario) : bool := (s_dur s <=? max_size) && forallb cstring (s_filters s) && forallb tc_oktest (s_tests s).
 
 (* ------------------------------------------------------------------------------------------------------------
    TeamCity service messages, read as the documentation defines them:
@@ -313,27 +327,28 @@ Fixpoint take_tests (g : list test) (ms : list message) : option (list message) 
   | t :: r => match take_test t ms with Some ms' => take_tests r ms' | None => None end
   end.
 Definition group_name (g : list test) : bytes := match g with t :: _ => t_group t | [] => [] end.
-(* the messages of one group (maximal run of consecutive tests with the same group name) *)
-Definition take_suite (g : list test) (ms : list message) : option (list message) :=
+(* the messages of one group (maximal run of consecutive registered tests with the same group name): the bracket is there even
+   when the filters select none of its tests; inside it, the tests that run *)
+Definition take_suite (fs : list bytes) (g : list test) (ms : list message) : option (list message) :=
   match ms with
   | m :: r =>
       if is_msg L_testSuiteStarted m && attr_is L_name m (group_name g) then
-        match take_tests g r with
+        match take_tests (filter (selected fs) g) r with
         | Some (e :: r2) => if is_msg L_testSuiteFinished e && attr_is L_name e (group_name g) then Some r2 else None
         | _ => None
         end
       else None
   | [] => None
   end.
-Fixpoint faithful (gs : list (list test)) (ms : list message) : bool :=
+Fixpoint faithful (fs : list bytes) (gs : list (list test)) (ms : list message) : bool :=
   match gs with
   | [] => match ms with [] => true | _ => false end
-  | g :: r => match take_suite g ms with Some ms' => faithful r ms' | None => false end
+  | g :: r => match take_suite fs g ms with Some ms' => faithful fs r ms' | None => false end
   end.
 
-Definition spec_msgs (ts : list test) (ms : list message) : bool := balanced ms && faithful (segments ts) ms.
+Definition spec_msgs (fs : list bytes) (ts : list test) (ms : list message) : bool := balanced ms && faithful fs (segments ts) ms.
 Definition spec (s : scenario) (o : obs) : bool :=
-  match tc_parse o with Some ms => spec_msgs (s_tests s) ms | None => false end.
+  match tc_parse o with Some ms => spec_msgs (s_filters s) (s_tests s) ms | None => false end.
 
 (* the parser alone, for comparing it with an independent decoder on arbitrary byte strings *)
 Definition parse_result (s : bytes) : option (list (bytes * list (bytes * bytes))) :=
@@ -377,9 +392,9 @@ Definition test_msgs (dur : N) (t : test) : list message :=
   mk_named L_testStarted (t_name t) :: (if t_ignored t then [mk_named L_testIgnored (t_name t)] else [])
   ++ map (failure_msg t) (test_failures t)
   ++ [{| m_name := L_testFinished; m_attrs := [(L_name, t_name t); (L_duration, dec (if t_ignored t then 0 else dur))] |}].
-Definition suite_msgs (dur : N) (g : list test) : list message :=
-  mk_named L_testSuiteStarted (group_name g) :: flat_map (test_msgs dur) g ++ [mk_named L_testSuiteFinished (group_name g)].
-Definition messages_of (dur : N) (ts : list test) : list message := flat_map (suite_msgs dur) (segments ts).
+Definition suite_msgs (dur : N) (fs : list bytes) (g : list test) : list message :=
+  mk_named L_testSuiteStarted (group_name g) :: flat_map (test_msgs dur) (filter (selected fs) g) ++ [mk_named L_testSuiteFinished (group_name g)].
+Definition messages_of (dur : N) (fs : list bytes) (ts : list test) : list message := flat_map (suite_msgs dur fs) (segments ts).
 
 (* what a decoder must return for a printed message *)
 Definition seg_dec (x : seg) : bytes := match x with Raw s => s | Esc s => s end.
